@@ -203,7 +203,7 @@ class Frequency(Format):
         return freq * self.field_boost
 
     def combine(self, vs):
-        return pack_uint(sum(self.decode_value(v) for v in vs))
+        return pack_uint(sum(self.decode_frequency(v) for v in vs))
 
 
 class Positions(Format):
